@@ -150,6 +150,14 @@ WAVE6_NOTE = {
  "C12-I": "reported on arrival with a confused message; lists built from literals are unrolled with per-copy temporaries and the growth analysis follows locals: C12-R4 reports the NaN fill of n_evals",
  "C17-H": "reported on arrival only as 'constraint stage not found'; new public helpers are inlined, the constraint mask is read NaN-strictly: 'not (C > 0)' keeps NaN rows",
  "C19-I": "reported on arrival as 'result field not found'; C19-R4 now says that dict.update() bypasses the copying item setter",
+ # wave 7: the report on arrival was an alarm that the repaired refactoring raised as well
+ "C13-J": "reported on arrival only through an alarm the repaired refactoring raised too; C13-R3 now requires the search-size refinement to be guarded by the failed poll and 'not search_size_locked' only",
+ "C15-J": "reported on arrival only through an alarm the repaired refactoring raised too; C15-R3 evaluates the training-set size by cases against min(max(n_min, n_max - buffer, min(n_max, within radius)), logged)",
+ "C16-I": "reported on arrival only through an alarm the repaired refactoring raised too; C16-R6 reports the restart vector that is a snapshot taken before its slot was re-bound in the retry loop",
+ "C18-I": "reported on arrival only because the strategy call could not be resolved through the class table (the repaired refactoring alarmed too); class tables are resolved, C18-R11 added: the strategy class is selected by the drawn entry's name, not by its portfolio position",
+ "C19-J": "reported on arrival by the structural label rule, which the repaired refactoring (branches re-ordered) triggered as well; C19-R4 decides the labels by cases and names the failing combination",
+ "C20-H": "reported on arrival as 'options not handed to the constructor', which the repaired refactoring triggered as well; C20-R1 now requires that a file with derived defaults is not the constructor's file (read from the ini values)",
+ "C08-I": "reported on arrival as 'guard not found', which the repaired refactoring (flags taken at entry) triggered as well; C08-R1/R6 are decided over which arguments are None (32 cases) and name the rejected valid definition",
 }
 import re
 def needs_from_notes(sid):
